@@ -18,7 +18,8 @@ IsSmallThickPoly == /\ "d" \in DOMAIN cur /\ "kind" \in DOMAIN cur.d /\ cur.d.ki
                     /\ \A k \in 1..Len(cur.d.shape.v) : \A c \in 1..2 : cur.d.shape.v[k][c] >= -80 /\ cur.d.shape.v[k][c] <= 80
                     /\ \A c \in 1..2 : cur.d.shape.off[c] >= -1000 /\ cur.d.shape.off[c] <= 1000
                     /\ cur.d.style.w >= 2 /\ cur.d.style.w <= 12 /\ cur.d.style.stroke >= 0
-\* DRIFT: stroked triangles of every alignment (with or without fill) vs EGThickTri
+\* DRIFT: stroked triangles of every alignment (with or without fill) vs EGThickTri (every fourth case: the comparison
+\* costs about 20 ms per triangle and the recorder has tens of thousands of them)
 IsSmallThickTri == /\ "d" \in DOMAIN cur /\ "kind" \in DOMAIN cur.d /\ cur.d.kind = "prim" /\ "shape" \in DOMAIN cur.d
                    /\ cur.d.shape.k = "triangle" /\ DOMAIN cur.d = {"kind", "shape", "style"}
                    /\ \A k \in 1..3 : \A c \in 1..2 : cur.d.shape.v[k][c] >= -80 /\ cur.d.shape.v[k][c] <= 80
@@ -27,9 +28,9 @@ IsSmallThickTri == /\ "d" \in DOMAIN cur /\ "kind" \in DOMAIN cur.d /\ cur.d.kin
 ShiftBox(b, o) == <<b[1] + o[1], b[2] + o[2], b[3], b[4]>>
 ShiftSet(S, o) == { <<p[1] + o[1], p[2] + o[2]>> : p \in S }
 StepDraw(e)  == e.ev = "draw" /\ UNCHANGED cur /\
-  DriftReport(e.case, ~IsSmallThickTri \/ e.bbox = TriStyledBoxT(cur.d.shape.v, cur.d.style.w, cur.d.style.al),
+  DriftReport(e.case, ~IsSmallThickTri \/ e.case % 4 # 0 \/ e.bbox = TriStyledBoxT(cur.d.shape.v, cur.d.style.w, cur.d.style.al),
               "thick_triangle_bounding_box_transcription", [shape |-> cur.d.shape, w |-> cur.d.style.w, bbox |-> e.bbox]) /\
-  DriftReport(e.case, ~IsSmallThickTri \/ RunsToSet(e.touched) = TriThickSetT(cur.d.shape.v, cur.d.style.w, cur.d.style.fill >= 0, TRUE, cur.d.style.al),
+  DriftReport(e.case, ~IsSmallThickTri \/ e.case % 4 # 0 \/ RunsToSet(e.touched) = TriThickSetT(cur.d.shape.v, cur.d.style.w, cur.d.style.fill >= 0, TRUE, cur.d.style.al),
               "thick_triangle_pixels_transcription", [shape |-> cur.d.shape, style |-> cur.d.style]) /\
   DriftReport(e.case, ~IsSmallThickPoly \/ e.bbox = ShiftBox(PolyThickBoxT(cur.d.shape.v, cur.d.style.w), cur.d.shape.off),
               "thick_polyline_bounding_box_transcription", [shape |-> cur.d.shape, w |-> cur.d.style.w, bbox |-> e.bbox]) /\
